@@ -20,7 +20,7 @@ ASSUMPTIONS = ["type of comparison / logical results is not asserted (only expli
 
 
 def budget(tier):
-    return {"examples": 2400 if tier == "quick" else 30000, "wall_s": 110 if tier == "quick" else 1500}
+    return {"examples": 2400 if tier == "quick" else 30000, "wall_s": 110 if tier == "quick" else 900}
 
 
 @st.composite
